@@ -150,6 +150,16 @@ static void mem_case(void) {
       hs[i].target = c2;
       ctx_expect[c0]--; ring_expect[ctx_ring[c0]]--; ctx_expect[c2]++; ring_expect[ctx_ring[c2]]++;
       if (!ring_expect[ctx_ring[c0]]) ring_live[ctx_ring[c0]] = 0;
+    } else if (w < 88) { /* lp_upolynomial_set_ring: the univariate polynomial gives back its ring and takes another (or the same) one */
+      if (!nh) continue;
+      int i = (int)rnd(nh); if (hs[i].kind != 'U') continue;
+      int r0 = hs[i].target, r2 = chance(40) ? r0 : r; if (!ring_live[r2]) continue;
+      NOTE("set_ring r%d -> r%d", r0, r2);
+      lp_upolynomial_set_ring((lp_upolynomial_t*)hs[i].obj, ring[r2]);
+      snprintf(opbuf, sizeof opbuf, ">U:%d:%d", r0, r2);
+      hs[i].target = r2;
+      ring_expect[r0]--; ring_expect[r2]++;
+      if (!ring_expect[r0]) ring_live[r0] = 0;
     } else { if (!nh) continue;
       int i = (int)rnd(nh); holder h = hs[i]; hs[i] = hs[--nh];
       snprintf(opbuf, sizeof opbuf, "-%c:%d", h.kind, h.target);
@@ -180,6 +190,31 @@ static void mem_case(void) {
   lp_variable_order_detach(ord); lp_variable_db_detach(db);
 }
 
+/* variable database: ids handed out by new_variable and ids chosen by the caller (add_variable) must stay distinct, every
+ * name must be retrievable, and the database must free everything when its last holder detaches (LeakSanitizer)
+ *   refs vdb <op,op,...> => <id=name;...>       op = n<id>:<name> (new, id returned) | a<id>:<name> (add with given id) */
+static void vdb_case(void) {
+  lp_variable_db_t* db = lp_variable_db_new();
+  int nops = 1 + (int)rnd(14);
+  lp_variable_t ids[64]; int nid = 0;
+  sb_begin("refs", "vdb"); sb_sp();
+  for (int k = 0; k < nops; ++k) {
+    char nm[16]; snprintf(nm, sizeof nm, "v%d", k);
+    if (k) sb_str(",");
+    if (chance(65)) { lp_variable_t v = lp_variable_db_new_variable(db, nm); sb_str("n"); sb_ulong(v); sb_str(":"); sb_str(nm); ids[nid++] = v; }
+    else {
+      lp_variable_t v = chance(15) ? 90 + rnd(40) : rnd(24);      /* sometimes beyond the initial capacity (100) */
+      int used = 0; for (int j = 0; j < nid; ++j) if (ids[j] == v) used = 1;
+      if (used) { lp_variable_t w = lp_variable_db_new_variable(db, nm); sb_str("n"); sb_ulong(w); sb_str(":"); sb_str(nm); ids[nid++] = w; }
+      else { lp_variable_db_add_variable(db, v, nm); sb_str("a"); sb_ulong(v); sb_str(":"); sb_str(nm); ids[nid++] = v; }
+    }
+  }
+  sb_arrow(); sb_sp();
+  for (int j = 0; j < nid; ++j) { if (j) sb_str(";"); sb_ulong(ids[j]); sb_str("="); const char* g = lp_variable_db_get_name(db, ids[j]); sb_str(g ? g : "(null)"); }
+  sb_emit();
+  lp_variable_db_detach(db);
+}
+
 int main(int argc, char** argv) {
   uint64_t seed = argc > 1 ? strtoull(argv[1], 0, 10) : 1;
   long n = argc > 2 ? atol(argv[2]) : 1000;
@@ -189,7 +224,7 @@ int main(int argc, char** argv) {
   for (long i = 0; i < n; ++i) {
     if ((only >= 0 && i != only) || i < start) continue;
     lpv_begin_case(seed, i);
-    mem_case();
+    if (i % 8 == 7) vdb_case(); else mem_case();
   }
   free(sb_buf);
   return 0;
